@@ -265,6 +265,14 @@ def wl_events(spec, ctx, mods):
             ref = gen.events(r)
             est = gen.related_events(r, ref)
             w = r.choice(gen.DYADIC_WINDOWS + [0.0])
+            if r.random() < 0.2 and ref.size:
+                # off-lattice: estimates just inside / just outside the window
+                w = r.choice([0.05, 0.07, 0.5, 3.0])
+                est = np.sort(np.array([x + s * w * (1 + d) for x in ref
+                                        for s, d in [(r.choice([1, -1]),
+                                                      r.choice([5e-10, -5e-10, 1e-12,
+                                                                -1e-12, 3e-9, -3e-9]))]]))
+                est = est[est >= 0]
             m1 = util.match_events(ref, est, w)
             pr = list(range(ref.size)); r.shuffle(pr)
             pe = list(range(est.size)); r.shuffle(pe)
